@@ -836,6 +836,7 @@ def run(ctx):
                        peer_args=[r.choice(ok_pe) for _ in range(r.choice([0, 1, 2]))]))
     run_e2e_create(ctx, cr, norm)
     run_e2e_reject(ctx, CORPUS_TEXT + texts[:ctx.n(30, 300)])
+    link_with_unparseable_trackers(ctx)
     return finish(ctx)
 
 
@@ -904,3 +905,45 @@ def replay(ctx, path):
     else:
         print(json.dumps(case, indent=1, ensure_ascii=False)[:4000])
     return 0
+
+
+def link_with_unparseable_trackers(ctx):
+    """Torrents the loader accepts whose tracker list holds a string that is not an absolute URL (the `announce` fields are
+    plain strings): `torrent link` either refuses, or prints a link with one `tr` per distinct tracker - never a link that
+    silently leaves trackers out. Oracle only. (Added after seeded change C10-7: the tracker iterator flattened, dropping the
+    entries that fail to parse.)"""
+    good = ["http://a.example/announce", "udp://b.example:6969"]
+    broken = ["tracker.example.com/announce", "//host/announce", "http://", "", "not a url", "::", "http://[::1/announce"]
+    shapes = []
+    for b in broken:
+        shapes.append((b, [[good[0]], [good[1]]]))            # broken announce, good tiers
+        shapes.append((good[0], [[b], [good[1]]]))            # broken tier entry between good ones
+        shapes.append((good[0], [[good[1], b]]))              # broken last entry
+    tmp = tempfile.mkdtemp(prefix="c10u-")
+    try:
+        for k, (announce, tiers) in enumerate(shapes):
+            d = tempfile.mkdtemp(dir=tmp)
+            tb = torrent_bytes("n", announce, tiers)
+            open(os.path.join(d, "t.torrent"), "wb").write(tb)
+            rc, out, err = ctx.imdl(["torrent", "link", "--input", "t.torrent"], cwd=d)
+            ctx.cov["evaluations"] += 1
+            ctx.count("e2e_link_unparseable_tracker")
+            ctx.distinct(("unparseable-tracker", k))
+            stored = spec_trackers(announce, tiers)
+            case = {"kind": "e2e-link-unparseable-tracker", "announce": announce, "tiers": tiers, "rc": rc,
+                    "stdout": out.decode("utf-8", "replace"), "stderr": err.decode("utf-8", "replace")[-300:],
+                    "shell": "echo %s | xxd -r -p > t.torrent; imdl torrent link --input t.torrent" % tb.hex()}
+            if rc == 0:
+                uri = out.decode("utf-8", "replace").strip()
+                q = uri.split("?", 1)[1] if "?" in uri else ""
+                ntr = sum(1 for kv in q.split("&") if kv.split("=", 1)[0] == "tr")
+                if ntr != len(stored):
+                    ctx.violation("oracle-failure",
+                                  "`torrent link` exits 0 with %d `tr` parameters for a torrent with %d distinct trackers %r (one of them "
+                                  "is not an absolute URL): trackers are left out silently" % (ntr, len(stored), stored), case)
+            elif rc != 1:
+                ctx.violation("oracle-failure", "`torrent link` ended abnormally (rc %d) on a tracker that is not a URL" % rc, case)
+            shutil.rmtree(d, ignore_errors=True)
+    finally:
+        shutil.rmtree(tmp, ignore_errors=True)
+
